@@ -181,6 +181,9 @@ type Engine[C any] struct {
 	Weight int
 	// BatchChecks is the number of cases per rapid.Check call (default 200).
 	BatchChecks int
+	// GCEvery: collect garbage between cases every this many cases (default 32; 1 for
+	// engines whose cases allocate a lot).
+	GCEvery int
 }
 
 // Runner is an engine adapted for Main.
@@ -249,7 +252,41 @@ func (f *fakeTB) FailNow()                          { f.failed = true }
 func (f *fakeTB) Fail()                             { f.failed = true }
 func (f *fakeTB) Failed() bool                      { return f.failed }
 
+// The garbage collector is a scheduling input the simulation does not own: a cycle
+// that starts inside a case preempts whichever goroutine is running and reorders the
+// goroutines that are runnable between two scheduler decisions, and when it starts
+// depends on heap size (including the size of the binary's globals). Workers therefore
+// turn the pacer off and collect only between cases, every GCEvery cases; a soft memory
+// limit is the safety net (reaching it collects inside a case, which is only a loss of
+// replay fidelity for that case, never a verdict).
+var gcManual bool
+var sinceGC int
+
+func gcSetup() {
+	if os.Getenv("VERIF_GC") == "auto" {
+		return
+	}
+	gcManual = true
+	debug.SetGCPercent(-1)
+	debug.SetMemoryLimit(5 << 30)
+}
+
+func gcTick(every int) {
+	if !gcManual {
+		return
+	}
+	if every <= 0 {
+		every = 32
+	}
+	sinceGC++
+	if sinceGC >= every {
+		sinceGC = 0
+		runtime.GC()
+	}
+}
+
 func safeRun[C any](e Engine[C], t *testing.T, c C, st *Stats) (fail *Failure) {
+	gcTick(e.GCEvery)
 	defer func() {
 		if r := recover(); r != nil {
 			fail = &Failure{Class: "panic", Sig: firstLine(fmt.Sprint(r)), Msg: fmt.Sprintf("panic: %v\n%s", r, trim(string(debug.Stack()), 60))}
@@ -395,6 +432,7 @@ func Main(t *testing.T, engines ...runner) {
 	if prop == "" {
 		t.Skip("VERIF_PROP not set: harness is only run by /verif/bin/check")
 	}
+	gcSetup()
 	var sel []runner
 	only := map[string]bool{}
 	for _, n := range strings.Split(os.Getenv("VERIF_ENGINES"), ",") {
